@@ -135,12 +135,13 @@ Agrees(m) == m \in {"in", "edge0", "edge"}
 
 (* ------------------------------------------------------------------ verdict over the samples *)
 Verdict(fails, n, failable) == IF n = 1 THEN fails = 0 ELSE fails <= failable
-(* The statement is not single-valued when an author configures failable_evals >= samples >= 2 and every sample
-   misses: its main clause accepts (failures do not exceed failable_evals), its last sentence says such a formula
-   never earns credit.  Both readings are allowed there. *)
-Ambiguous(fails, n, failable) == n >= 2 /\ failable >= n /\ fails = n
-AllowedSet(fails, n, failable) == IF Ambiguous(fails, n, failable) THEN {"accept", "reject"}
-                                  ELSE IF Verdict(fails, n, failable) THEN {"accept"} ELSE {"reject"}
+(* The count rule of the statement decides alone: "exactly when ... the number of samples at which the student's value
+   differs ... does not exceed failable_evals (a single-sample grader tolerates no failure)".  In particular an author
+   who configures failable_evals >= samples >= 2 forgives a miss at every sample; the statement's closing sentence
+   ("consequently ... formulas that miss at every sample never earn any") is a consequence for failable_evals < samples,
+   not a second rule.  Generous(...) names that corner. *)
+Generous(fails, n, failable) == n >= 2 /\ failable >= n /\ fails = n
+AllowedSet(fails, n, failable) == IF Verdict(fails, n, failable) THEN {"accept"} ELSE {"reject"}
 GradeOf(outcome, credit) == IF outcome = "accept" THEN credit ELSE Zero
 
 \* marg : the margin class of each of the n samples.  The verdict counts the disagreeing samples among ALL n
@@ -197,12 +198,17 @@ Defined(form, x, p) ==
      [form |-> "idf"]             the same sampled value, but it reaches the formulas through a user function that is
                                   drawn anew at every sample (f_i(t) = v_i * t, answer 'f(1)'): neither the answer
                                   nor the student's formula needs to mention a variable
+     [form |-> "idn"]             ... through an instance of a numbered variable (numbered_vars ['a'], answer 'a_{1}')
+     [form |-> "idd"]             ... through a dependent variable (y = 1*x computed from the sampled x, answer 'y')
+     [form |-> "idm"]             ... through a mix of a user constant and the variable (one = 1, answer 'one*x')
      [form |-> "const", k |-> v]  the answer is a constant expression (a number, 2*pi/pi, ...): the same value v at
                                   every sample, while the student's formula may still use the variable           *)
 IdAns == [form |-> "id", k |-> Real(Zero), sp |-> "lit"]
 ConstAns(v, sp) == [form |-> "const", k |-> v, sp |-> sp]
-IdfAns == [form |-> "idf", k |-> Real(Zero), sp |-> "lit"]
-Expected(ans, x) == IF ans.form \in {"id", "idf"} THEN x ELSE ans.k
+Carriers == {"id", "idf", "idn", "idd", "idm"}
+CarrierAns(f) == [form |-> f, k |-> Real(Zero), sp |-> "lit"]
+IdfAns == CarrierAns("idf")
+Expected(ans, x) == IF ans.form \in Carriers THEN x ELSE ans.k
 DefinedAns(ans, form, x, p) == Defined(form, x, p) /\ Student(form, x, p).shape = Expected(ans, x).shape
                                /\ (ans.form = "const" => ~IsInf(x))
 
@@ -211,7 +217,7 @@ DefinedAns(ans, form, x, p) == Defined(form, x, p) /\ Student(form, x, p).shape 
    numbers and arrays, whose squared norms would otherwise leave TLC's integer range. *)
 MarginMulPct(x, eps, tol) == IF Norm2(x)[1] = 0 THEN "edge0" ELSE Margin(Real(One), Real(QAdd(One, eps)), tol)
 SampleMargin(ans, form, x, p, tol) ==
-  IF ans.form \in {"id", "idf"} /\ form = "mul" /\ tol.kind = "pct" /\ ~IsInf(x) /\ ~IsRealScalar(x)
+  IF ans.form \in Carriers /\ form = "mul" /\ tol.kind = "pct" /\ ~IsInf(x) /\ ~IsRealScalar(x)
   THEN MarginMulPct(x, RealPart(p), tol)
   ELSE Margin(Expected(ans, x), Student(form, x, p), tol)
 
@@ -306,6 +312,8 @@ LawMarginConsistent(e, s, tol) == LET m == Margin(e, s, tol) IN
 \* verdict: more failable evaluations never hurt; all-miss is rejected whenever failable < n; single sample strict
 LawFailableMonotone(fails, n, failable) == "accept" \in AllowedSet(fails, n, failable) => "accept" \in AllowedSet(fails, n, failable + 1)
 LawAllMiss(n, failable) == failable < n => AllowedSet(n, n, failable) = {"reject"}
+\* ... and, with two or more samples, accepted as soon as the count does not exceed failable_evals, even if all miss
+LawCountRule(fails, n, failable) == n >= 2 => (AllowedSet(fails, n, failable) = {"accept"} <=> fails <= failable)
 LawNoMiss(n, failable) == AllowedSet(0, n, failable) = {"accept"}
 LawSingleSample(fails, failable) == AllowedSet(fails, 1, failable) = (IF fails = 0 THEN {"accept"} ELSE {"reject"})
 \* the order of the samples is irrelevant: judging the reversed sequences gives the same verdict and failure count
@@ -315,7 +323,8 @@ LawOrderIrrelevant(marg, n, failable, credit) ==
   IN a.allowed = b.allowed /\ a.fails = b.fails /\ a.grades = b.grades
 \* how the sampled value is carried (a sampled variable or a sampled function) is irrelevant to the verdict
 LawCarrierIrrelevant(xs, form, ps, tol, n, failable, credit) ==
-  JudgeAns(IdfAns, xs, form, ps, tol, n, failable, credit) = JudgeAns(IdAns, xs, form, ps, tol, n, failable, credit)
+  \A f \in Carriers : JudgeAns(CarrierAns(f), xs, form, ps, tol, n, failable, credit)
+                        = JudgeAns(IdAns, xs, form, ps, tol, n, failable, credit)
 \* the scale-invariance shortcut classifies like the general definition (where the general one is computable)
 LawMulShortcut(x, eps, tol) == tol.kind = "pct" /\ ~IsInf(x)
                                  => LET a == MarginMulPct(x, eps, tol)  b == Margin(x, VScale(QAdd(One, eps), x), tol)
